@@ -146,6 +146,9 @@ bool sim_wait(bool (*pred)(void *), void *arg, uint64_t wake_at);
 /** generic recorded choice in [0, n): in generate mode drawn from the fault
  * stream, 0 being returned with probability 1 - num/den. */
 uint32_t sim_choose(int kind, uint32_t n, uint32_t num, uint32_t den);
+/** makes every sim_choose() return the default (used by differential runs that
+ * execute one plan twice and need the same choices both times) */
+void sim_set_fixed_choices(bool on);
 /** recorded coin flip (true with probability num/den in generate mode;
  * false once the tape is exhausted in replay mode). */
 bool sim_coin(uint32_t num, uint32_t den);
